@@ -206,3 +206,101 @@ def tie(ctx, res, texts, label='end_to_end_bash', binary_max=None):
                             rejections_agree=agree['reject'], oracle_conflicts=agree['conflict'],
                             seconds=round(time.time() - t0, 1), harness_s=round(t_dump, 1), binary_s=round(t_bin, 1), model_s=round(t_model, 1))
     return agree['script']
+
+
+def tie_data(ctx, res, texts, label='end_to_end_data', binary_max=None):
+    """The same for fish, zsh and pwsh, as far as the emitter models go (Model/Compiler.v compile_data = Driver.compile ;
+    Tables.all_tables sh ; EmitData sections): on the SOURCE TEXT, with the oracles of the run for that shell, the data
+    blocks must occur byte for byte, in order, in the script (of the real binary for the first `binary_max` texts per
+    shell, of the same library code inside cg-dump for the rest) and every other line must be a line of the regenerated
+    skeleton templates (c04.data_tie); rejections must agree on stage and variant."""
+    from .c04 import data_tie
+    t0 = time.time()
+    shells = ['fish', 'zsh', 'pwsh']
+    if binary_max is None:
+        binary_max = 15 if ctx.get('tier') != 'thorough' else 800
+    texts = [t for t in texts if usable(t)]
+    with build.Lock():
+        exe = build.harness()
+        binary = build.complgen(False)
+    dumps = impl.dump(exe, texts, STAGES, shells)
+    jobs = [dict(text=t, shell=sh, to_file=False) for t in texts[:binary_max] for sh in shells]
+    runs = impl.run_binary_many(binary, jobs, timeout=20)
+    byrun = {}
+    for j, b in zip(jobs, runs):
+        byrun[(j['text'], j['shell'])] = b
+    reqs, keys = [], []
+    for t, d in zip(texts, dumps):
+        for sh in shells:
+            st = d[sh]
+            b = byrun.get((t, sh))
+            if b is not None and b['rc'] == 0 and b['stdout']:
+                script = b['stdout'].decode('latin-1')
+            elif b is None:
+                script = emitlib.script_of(st.get('SCRIPT'))
+            else:
+                script = None
+            command = 'cmd'
+            if st.get('CHECK', '').startswith('(ok '):
+                command = str(sexp.parse(st['CHECK'])[1])
+            try:
+                o = oracles(st, script, command)
+            except Exception:
+                o = '(oracles (pops) (fuel %d) (mainlits) (sublits) (groups) (sig ""))' % FUEL
+            reqs.append('compiledata %s %s %s' % (sh, o, sexp.quote(t.decode('latin-1'))))
+            keys.append((t, sh, st, script, command, b))
+    outs = model.run(reqs)
+    agree = dict(data=0, reject=0, conflict=0, binary=0, other_command=0)
+    for (t, sh, st, script, command, b), o in zip(keys, outs):
+        res.evaluations += 1
+        replay = dict(kind='tie-compile-data', grammar=t.decode('latin-1'), shell=sh, model=o[:1500],
+                      impl={k: v[:600] for k, v in st.items()})
+        if 'CRASH' in st or 'PANIC' in st or (b is not None and (b['timed_out'] or b['rc'] not in (0, 1))):
+            continue
+        try:
+            m = sexp.parse(o)
+        except Exception:
+            m = ['drivererror', o[:200]]
+        if m[0] in ('panic', 'outoffuel', 'drivererror'):
+            res.violations.append(report.Violation('compile_data answers %s (its totality is claimed by Props/C04c.v)' % o[:200],
+                                                   replay, found_input=False))
+            continue
+        if m[0] == 'oracle-conflict':
+            agree['conflict'] += 1
+            continue
+        err = [(STAGE_OF[s], sexp.parse(st[s])) for s in ('PARSE', 'CHECK', 'REGEX', 'RAW', 'AMB') if s in st and st[s].startswith('(err')]
+        if err:
+            stage, e = err[0]
+            variant = e[1][0]
+            if variant in ('AmbiguousDFA', 'ConflictingDescriptions'):
+                stage = 'amb'
+            ok = m[0] == 'err' and m[1] == stage and isinstance(m[2], list) and m[2][0] == variant and (b is None or b['rc'] == 1)
+            if ok and variant != 'NonterminalDefinitionsCycle' and stage in ('parse', 'check'):
+                ok = m[2] == e[1]
+            if ok:
+                agree['reject'] += 1
+                res.traces_validated += 1
+            else:
+                res.violations.append(report.Violation(
+                    'tie broken (compile_data %s): library rejects at %s with %s, model says %s' % (sh, stage, variant, o[:120]),
+                    replay, found_input=False))
+            continue
+        if script is None:
+            res.violations.append(report.Violation('tie broken (compile_data %s): the library accepts, no script' % sh, replay, found_input=False))
+            continue
+        if command != 'cmd':
+            agree['other_command'] += 1     # the skeleton patterns of c04.data_tie are instantiated for the command "cmd"
+            continue
+        why = data_tie(sh, script, o)
+        if why is None:
+            agree['data'] += 1
+            if b is not None:
+                agree['binary'] += 1
+            res.traces_validated += 1
+        else:
+            res.violations.append(report.Violation('tie broken (compile_data %s): %s' % (sh, why), dict(replay, why=why), found_input=False))
+    res.extra[label] = dict(texts=len(texts), shells=shells, data_sections_byte_identical=agree['data'],
+                            of_which_against_the_binary=agree['binary'], rejections_agree=agree['reject'],
+                            oracle_conflicts=agree['conflict'], skipped_other_command_name=agree['other_command'],
+                            seconds=round(time.time() - t0, 1))
+    return agree['data']
